@@ -316,3 +316,16 @@ Definition aes_extract (m : aes_install) (patched : bool) (k : pdf_kind) : bool 
 Definition aes_docs (m : aes_install) (patched : bool) (ks : list pdf_kind) : bool :=
   fold_left (fun p k => snd (aes_extract m p k)) ks patched.
 Definition aes_mode_safe (m : aes_install) : bool := match m with Lazy => false | _ => true end.
+
+(* the same, parametric in the guard: _open_pdf_reader installs the fallback when the constructor
+   fails for want of AES (at_open) or when its guard `detect` says so; `needs_aes` (oracle: pypdf
+   will call AES while the document is read) decides whether an unpatched extraction fails *)
+Section AesGuard.
+  Variable doc : Type.
+  Variable needs_aes at_open detect : doc -> bool.
+  Definition g_open (patched : bool) (d : doc) : bool := patched || at_open d || detect d.
+  Definition g_extract (patched : bool) (d : doc) : bool * bool :=
+    let p := g_open patched d in (negb (needs_aes d) || p, p).
+  Definition g_docs (patched : bool) (ds : list doc) : bool :=
+    fold_left (fun p d => snd (g_extract p d)) ds patched.
+End AesGuard.
